@@ -38,7 +38,7 @@ func isValidationErr(err error) bool {
 	if err == nil {
 		return false
 	}
-	if _, ours := err.(*tErr); ours {
+	if _, ours := asTErr(err); ours {
 		return false
 	}
 	return strings.Contains(err.Error(), "Field validation for")
